@@ -94,6 +94,7 @@ BENIGN = [
     ("helper-extracted-validate", MIX, "        if not arrays:\n            raise EmptyInputs(lineno)\n", "        if len(arrays) == 0:\n            raise EmptyInputs(lineno)\n", ["C05", "C07"]),
     ("lineno-keyword", PRG, "            raise CommandDoesNotExist(node.command, node.lineno)", "            raise CommandDoesNotExist(node.command, lineno=node.lineno)", ["C11", "C12", "C13"]),
     ("leaf-filter-inverted-with-sweep", PRG, "            if not dependents.get(command.result_name)\n", "            if dependents.get(command.result_name)\n", ["C01", "C14", "C12"]),
+    ("single-input-shortcut", B, "        result = arrays[0].copy()\n\n        for arr in arrays[1:]:\n            result = result + arr\n", "        if len(arrays) == 1:\n            return arrays[0].copy()\n\n        result = arrays[0].copy()\n\n        for arr in arrays[1:]:\n            result = result + arr\n", ["C02", "C03", "C05", "C07", "C09"]),
     ("count-lf-only-pattern", PSR, "        t.lexer.lineno += t.value.count(\"\\n\")\n        try:", "        t.lexer.lineno += t.value.count(\"\\n\") + 0 * 1\n        try:", []),
 ]
 
